@@ -533,6 +533,12 @@ where
                         // is durable — durable_index may exceed max_index after truncation,
                         // which would cause flush() to short-circuit before the replace lands.
                         self.remove_range(diverge_index..=u64::MAX);
+                        // Everything from diverge_index on is being replaced and is not on
+                        // disk yet: the durable mark must not stay above it, otherwise the IO
+                        // task, which persists (durable_index, max_index], would never write
+                        // entries re-appended in that range and flush() would short-circuit.
+                        self.durable_index
+                            .fetch_min(diverge_index.saturating_sub(1), Ordering::AcqRel);
                         self.insert_to_memory(tail);
                         let (done_tx, done_rx) = oneshot::channel();
                         self.command_sender
